@@ -210,6 +210,34 @@ add("C20", "E1",
     "a listed known finding.",
     "DESIGN.md §4 C20")
 
+add("C16", "E2",
+    "stateless exploration of all schedules of the real multi-process LCD search under a virtual process/manager/clock world",
+    "The real check_for_loopcarried_dep runs with module-level Process, Manager, cpu_count, time and "
+    "os replaced by a virtual world in which every worker is a thread that hands the baton back before "
+    "each shared-list extension; the explorer enumerates every interleaving of worker steps, "
+    "completion orders and poller wake-ups by replaying choice prefixes (complete for 1-3 workers, "
+    "deviation bound 1-2 for 5-16 workers), for kernels with 4-5 cycles incl. latency ties and a root in "
+    "the last line; in every schedule the result (keys, order, members, latencies) and the report must "
+    "equal the single-process result. Replays are deterministic (replay divergence is a hard error). "
+    "Bound to the real system by 15 real-multiprocessing conformance runs and a supplementary "
+    "hash-seed sweep of CLI runs.",
+    "Assumes a killed/running worker's list extension is atomic (manager executes one request at a "
+    "time). Real OS scheduling is not owned; conformance runs are few and not called exhaustive.",
+    "DESIGN.md §3.2, §4 C16", category="model_checking")
+add("C19", "E2",
+    "stateless exploration of schedules x poll wake-ups x kill points (virtual time) and of clock-jump points",
+    "Same virtual world as C16 with timeouts {0, 0.2, 0.4 virtual s, 50, -1}: every schedule of worker "
+    "steps, poller wake-ups and kill points (incl. 'pending extension already processed') is "
+    "enumerated (complete for 2 workers, deviation bound 2-4 for 3); the single-process search is "
+    "explored with the clock jumping past the timeout at the k-th query for every k. Oracle per "
+    "schedule: reported cycles are a subset of the untimed result with equal latencies, flag and "
+    "report warning iff the search was cut short, virtual elapsed time <= timeout + one poll "
+    "interval, every worker dead and joined, port pressure and critical path unchanged. Two "
+    "observed real-time runs (17-line Fibonacci-dense kernel below and above the 50-line threshold).",
+    "Virtual time decides the logic; real time is only observed with generous margins. Kill atomicity "
+    "as in C16.",
+    "DESIGN.md §3.2, §4 C19", category="model_checking")
+
 NOT_YET = {}
 
 def main():
